@@ -176,6 +176,12 @@ var ruleQueryDiscipline = &core.Rule{ID: "R10.4", Min: 8,
 						pushed = true
 					}
 				}
+				// or through a summarised push helper
+				if call, ok := in.(*ssa.Call); ok && call != matchCall {
+					if hs := stackHelperOf(m, call.Call.StaticCallee()); hs != nil && hs.ok && hs.delta == 1 && len(hs.pops) == 0 && core.Before(call, matchCall) {
+						pushed = true
+					}
+				}
 			}
 		}
 		s.Check(pushed, obj.Name()+": key is pushed before matching", c.Pos(matchCall.Pos()), "push dominates the matcher call", "the path is matched before the current key was pushed onto it")
@@ -215,8 +221,58 @@ var ruleQueryDiscipline = &core.Rule{ID: "R10.4", Min: 8,
 				early = "the next member"
 			}
 		}
-		s.Check(early == "" , obj.Name()+": member is judged right after its value", c.Pos(judge.Pos()), "no exit between the consumed value and the judgement",
+		s.Check(early == "", obj.Name()+": member is judged right after its value", c.Pos(judge.Pos()), "no exit between the consumed value and the judgement",
 			fmt.Sprintf("after a member's value was consumed the scanner can leave (%s) before the member is judged: a deciding member that ends exactly at the end of the examined header is ignored", early))
+		// judgement helpers: module functions called from the object scanner only under the matched-index test,
+		// receiving the matched query (qs[matched]) and exactly this member's value bytes
+		type jhelper struct {
+			valParam *ssa.Parameter
+		}
+		helpers := map[*ssa.Function]*jhelper{}
+		for _, ci := range core.Calls(obj) {
+			call, ok := ci.(*ssa.Call)
+			if !ok {
+				continue
+			}
+			h := call.Call.StaticCallee()
+			if h == nil || !core.InMod(h) || h.Blocks == nil || m.fam[h] || h == matcher {
+				continue
+			}
+			under := false
+			for _, de := range core.DominatingConds(call.Block()) {
+				if de.From == judge.Block() {
+					under = true
+				}
+			}
+			if !under {
+				continue
+			}
+			jh := &jhelper{}
+			okQ := false
+			for i, a := range call.Call.Args {
+				if sl, ok := a.(*ssa.Slice); ok && sl.X == ssa.Value(obj.Params[1]) && valueSpan(sl, valCall) {
+					jh.valParam = h.Params[i]
+				}
+				if ld, ok := a.(*ssa.UnOp); ok && ld.Op == token.MUL {
+					if ia, ok := ld.X.(*ssa.IndexAddr); ok && ia.X == qsArg && ia.Index == matched {
+						okQ = true
+					}
+				}
+			}
+			if jh.valParam != nil && okQ {
+				helpers[h] = jh
+			}
+		}
+		for h := range helpers {
+			// called from nowhere else
+			for _, g := range c.SrcFuncs() {
+				for _, ci := range core.Calls(g) {
+					if ci.Common().StaticCallee() == h && g != obj {
+						delete(helpers, h)
+					}
+				}
+			}
+		}
 		// E + F + G: stores to the verdict flag
 		nStores := 0
 		for _, f := range c.SrcFuncs() {
@@ -246,6 +302,7 @@ var ruleQueryDiscipline = &core.Rule{ID: "R10.4", Min: 8,
 					}
 					// true: classify the guard
 					how := ""
+					noQuery := false
 					for _, de := range core.DominatingConds(b) {
 						cond, val := core.StripNot(de.Cond, de.Val)
 						switch x := cond.(type) {
@@ -257,6 +314,9 @@ var ruleQueryDiscipline = &core.Rule{ID: "R10.4", Min: 8,
 										if sl, ok := tr.Call.Args[0].(*ssa.Slice); ok && f == obj && sl.X == ssa.Value(obj.Params[1]) && valueSpan(sl, valCall) {
 											how = "accepted value equals the trimmed value bytes"
 										}
+										if jh := helpers[f]; jh != nil && tr.Call.Args[0] == ssa.Value(jh.valParam) {
+											how = "accepted value equals the trimmed value bytes (judgement helper)"
+										}
 									}
 								}
 							}
@@ -265,10 +325,13 @@ var ruleQueryDiscipline = &core.Rule{ID: "R10.4", Min: 8,
 								if how == "" {
 									how = "empty list (no accepted values / no query)"
 								}
+								if _, isParam := ln.Call.Args[0].(*ssa.Parameter); isParam && f != obj && types.Identical(ln.Call.Args[0].Type(), qsArg.Type()) {
+									noQuery = true // no query at all: nothing to match
+								}
 							}
 						}
 					}
-					underMatch := f != obj
+					underMatch := helpers[f] != nil || noQuery
 					for _, de := range core.DominatingConds(b) {
 						if de.From == judge.Block() {
 							underMatch = true
@@ -288,6 +351,15 @@ var ruleQueryDiscipline = &core.Rule{ID: "R10.4", Min: 8,
 				}
 				if len(fde.FindRangeOver(obj, u)) == 1 && judge.Block().Dominates(b) {
 					okVals = true
+				}
+			}
+		}
+		for h := range helpers {
+			for _, b := range h.Blocks {
+				for _, in := range b.Instrs {
+					if u, ok := in.(*ssa.UnOp); ok && u.Op == token.MUL && len(fde.FindRangeOver(h, u)) == 1 {
+						okVals = true
+					}
 				}
 			}
 		}
